@@ -133,7 +133,18 @@ func (e *Env) Go(name string, f func()) {
 		e.S.Gate("client:" + name + "#" + strconv.FormatUint(seq, 10))
 		defer func() {
 			if r := recover(); r != nil {
-				e.Infra(fmt.Sprintf("panic in harness client %s: %v\n%s", name, r, debug.Stack()))
+				st := string(debug.Stack())
+				if where, internal := panicOrigin(st); internal {
+					// raised inside the framework by a call this client made
+					e.mu.Lock()
+					if e.fwPanic == "" {
+						e.fwPanic = fmt.Sprintf("%v [raised at%s]", r, where)
+					}
+					e.mu.Unlock()
+					e.S.RequestAbort()
+					return
+				}
+				e.Infra(fmt.Sprintf("panic in harness client %s: %v\n%s", name, r, st))
 			}
 		}()
 		f()
